@@ -177,6 +177,9 @@ class Draws:
             return hi
         if hi - lo == n:
             return lo + (j + 0.5)
+        unit = (hi - lo) / n
+        if unit * n == hi - lo:
+            return lo + (j + 0.5) * unit          # exact when the range is n times a power of two
         return lo + (j + 0.5) / n * (hi - lo)
 
 
@@ -203,8 +206,11 @@ def flows(path, out):
     try:
         with open(out, "w") as fh:
             for t, rows in model.items():
+              # the table as it is, and scaled by powers of two (exact): the choice may depend on the table and the draw only,
+              # not on the absolute magnitude of the derivatives
+              for scale in (1.0, 2.0 ** -47, 2.0 ** 30):
                 for scheme in ("inside", "outside", "ratio"):
-                    for kind in ("reused", "fresh"):
+                    for kind in ("reused", "fresh") if scale == 1.0 else ("reused",):
                         sel, ends = [], []
                         for a in sorted(rows):
                             def select(plan):
@@ -212,7 +218,7 @@ def flows(path, out):
                                 draws.set(*plan)
                                 obj.reset()
                                 for i, rate in enumerate(t, start=1):
-                                    obj.insert(float(rate), ("unit", i), i == a)
+                                    obj.insert(float(rate) * scale, ("unit", i), i == a)
                                 return obj.get_active_identifier()[1]
                             interior, lo, hi = _plans(scheme, t, a)
                             got = [select(p) for p in interior]
@@ -221,10 +227,10 @@ def flows(path, out):
                             ends.append([a, select(lo), select(hi)])
                             want = ([io[0 if scheme == "inside" else 1] for io in rows[a]["io"]] if scheme != "ratio"
                                     else rows[a]["ra"])
-                            if got != want and len(differs) < 5:
+                            if scale == 1.0 and got != want and len(differs) < 5:
                                 differs.append(dict(scheme=scheme, kind=kind, t=list(t), a=a, got=got, model=want))
-                        fh.write(json.dumps(dict(scheme=scheme, who="%s lifting class, %s object" % (scheme, kind),
-                                                 t=list(t), sel=sel, ends=ends)) + "\n")
+                        fh.write(json.dumps(dict(scheme=scheme, who="%s lifting class, %s object, derivatives scaled by %g"
+                                                 % (scheme, kind, scale), t=list(t), sel=sel, ends=ends)) + "\n")
     finally:
         random.uniform = _real_uniform
     json.dump(dict(evaluations=n, differs=differs), open(out + ".notes.json", "w"))
